@@ -91,13 +91,15 @@ class CHECK(Check):
                     bds = [{"begin": [[False, rng.choice("\x01\x02")]], "end": [[False, rng.choice("\x01\x02\x03")]]} for _ in range(rng.randint(1, 3))]
                     content = "".join(rng.choice("\x01\x02\x03a\n") for _ in range(rng.randint(0, 12)))
                 else:
-                    bds = [{"begin": rng.choice(bl.PATTERN_POOL), "end": rng.choice(bl.PATTERN_POOL)} for _ in range(rng.randint(1, 3))]
+                    from .c12 import CHECK as C12
+                    gen_re = rng.random() < 0.35     # regular expressions proper, incl. ones that match the empty string everywhere
+                    bds = [{"begin": C12.text_pattern(rng, gen_re), "end": C12.text_pattern(rng, gen_re)} for _ in range(rng.randint(1, 3))]
                     lines = [rng.choice(BL) for _ in range(rng.randint(0, 8))]
                     content = "\n".join(lines) + rng.choice(["\n", ""])
                 yield {"fam": "block", "binary": binary, "blocks": bds, "content": content}
             else:
                 lines = [rng.choice(SL) for _ in range(rng.randint(0, 8))]
-                yield {"fam": "section", "binary": False, "secs": gen_secdefs(rng), "content": "\n".join(lines) + rng.choice(["\n", ""])}
+                yield {"fam": "section", "binary": False, "secs": gen_secdefs(rng, rng.random() < 0.35), "content": "\n".join(lines) + rng.choice(["\n", ""])}
 
     nonterminations = 0
 
@@ -150,7 +152,7 @@ class CHECK(Check):
         if case["fam"] == "reg":
             return [variant, case["binary"], case["linesize"], [reglib.regdef_sx(rd) for rd in case["defs"]], 0, case["content"]]
         if case["fam"] == "block":
-            return [variant, case["binary"], [[bl.pattern_sx(bd["begin"]), bl.pattern_sx(bd["end"])] for bd in case["blocks"]], case["content"]]
+            return [variant, case["binary"], [[bl.pattern_sx(bd["begin"], case["binary"]), bl.pattern_sx(bd["end"], case["binary"])] for bd in case["blocks"]], case["content"]]
         return [[bl.secdef_sx(sd) for sd in case["secs"]], case["content"]]
 
     def model_obs(self, case, res):
